@@ -49,6 +49,8 @@ FILTER_SIZES = [1, 3, 5]
 SIGMA_SPACE = [0.4, 1.0, 2.0]
 SIGMA_COLOR = [1.0, 4.0]
 BIG = [49, 50, 51, 99, 100, 101, 150, 201]
+# behaviours on which the statement is silent/ambiguous: counted and reported, not flagged as violations
+OBSERVED = {"bilateral_even_window_far_side_ring_filtered": 0, "mfi_bounds_of_mask_invalid_pixel_changed": 0}
 
 FUNCTIONS = {
     "median": ["pandora.filter.filter.AbstractFilter.__new__", "pandora.filter.median.MedianFilter.__init__",
@@ -429,6 +431,8 @@ def check_case(p):
                               "values around it" % (y, x, int(dist[y, x]), win, g, float(np.nanmin(sub)),
                                                     float(np.nanmax(sub))), {"pixel": [int(y), int(x)]}))
                 break
+        if (ring & changed).any():
+            OBSERVED["bilateral_even_window_far_side_ring_filtered"] += 1
         with np.errstate(invalid="ignore"):
             nontrivial = bool((strict & (np.abs(exp - disp) > 1e-3)).any())
     # ---- rim untouched
@@ -469,7 +473,10 @@ def check_mfi(p, ds, disp, mask, bands, got):
             found.append(("C10.mfi.rim_unchanged", "rim-pixel-changed-" + key,
                           "%s (%d,%d): %r -> %r" % (nm, y, x, float(src[y, x]), float(out[y, x])), {"pixel": [y, x]}))
         if p.get("bands_at_invalid", "nan") != "nan":
-            continue  # finite bounds on invalid pixels: the statement does not say which reading applies
+            # finite bounds on invalid pixels: the statement does not say which reading applies
+            if key == "inf" and (diff & ((mask & INVALID_MASK) != 0)).any():
+                OBSERVED["mfi_bounds_of_mask_invalid_pixel_changed"] += 1
+            continue
         exp = median_map(src.astype(np.float64), k)
         bad = _neq(out, exp)
         if bad.any():
@@ -522,7 +529,7 @@ def _draw(rng, p):
 
 def cases(tier, seed):
     rng = np.random.default_rng([seed, 10])
-    nlay = 1 if tier == "quick" else 2
+    nlay = 1 if tier == "quick" else 4
     # tiny maps first (smallest witnesses): every layout on the smallest sizes
     for k in FILTER_SIZES:
         for (h, w) in size_pairs(k, tier, rng, small_only=True):
@@ -588,6 +595,8 @@ def _witness(p, clause, extra):
 def run(tier: str, seed: int) -> dict:
     rec = Recorder()
     n_sample = {"median": 0, "bilateral": 0, "mfi": 0}
+    for name in OBSERVED:
+        OBSERVED[name] = 0
     for p in cases(tier, seed):
         rec.functions.update(FUNCTIONS[p["filter"]])
         if p.get("regularization", False):
@@ -600,7 +609,7 @@ def run(tier: str, seed: int) -> dict:
         rec.case(key=_key(p), nontrivial=nontrivial, sample=sample)
         for clause, wclass, message, extra in found:
             rec.violation(clause=clause, witness_class=wclass, message=message, witness=_witness(p, clause, extra))
-    grid = ("every pair" if tier != "quick" else "the 4 smallest pairs + one random partner per large size")
+    grid = ("every pair, 4 random layouts each" if tier != "quick" else "the 4 smallest pairs + one random partner per large size")
     bound = ("median & median_for_intervals: filter_size in {1,3,5}, maps h,w in {k,k+1,49,50,51,99,100,101,150,201} ("
              + grid + "), 7 invalid layouts (none/5%/50%/rectangles across block borders/invalid border/checkerboard/"
              "all invalid) with invalid bits drawn from 0b01111000011 and information bits 2,3,4,5,10 anywhere, invalid "
@@ -618,7 +627,19 @@ def run(tier: str, seed: int) -> dict:
             "Distinct = distinct (configuration, sha1 of map and mask).  Non-trivial = the oracle output differs from the "
             "input on at least one pixel that must be filtered (median/bilateral: disparity; median_for_intervals: "
             "lower bound band; with regularization: bit 11 set somewhere after the step).")
-    return rec.result(bound=bound, rule=rule)
+    res = rec.result(bound=bound, rule=rule)
+    res["observations"] = {
+        "bilateral_even_window_far_side_ring_filtered":
+            "%d cases: with an even window (sigma_space 0.4 -> 2, 1 -> 4) the code filters the pixels at distance "
+            "win//2-1 from the bottom/right edge but not those at the same distance from the top/left edge (window rows "
+            "y-win//2 .. y+win//2-1); not flagged: DESIGN section 3 lists even-sized windows as 'not a defect' and the "
+            "statement does not define the radius of an even window" % OBSERVED["bilateral_even_window_far_side_ring_filtered"],
+        "mfi_bounds_of_mask_invalid_pixel_changed":
+            "%d cases: median_for_intervals ignores the validity mask: a pixel that is invalid in the mask but has finite "
+            "interval bounds is filtered and is used in its neighbours' medians (only NaN bounds are skipped); not "
+            "flagged: the statement only says 'the same median on the interval-bound bands'"
+            % OBSERVED["mfi_bounds_of_mask_invalid_pixel_changed"]}
+    return res
 
 
 def replay(witness: dict) -> bool:
